@@ -185,6 +185,7 @@ func (vc *VC) call(x *ssa.Call, st *State) {
 	if tv != nil {
 		vc.vals[x] = *tv
 	}
+	vc.prevRes = tv
 	if vc.fc != nil && vc.inlineDepth == 0 {
 		key, fn, _ := vc.calleeKey(x.Common())
 		// hints placed after a call may speak about what it returned: "lastresult"
@@ -228,6 +229,14 @@ func (vc *VC) doCall(c *ssa.CallCommon, v ssa.Value, st *State, pos token.Pos) *
 			}
 			for j, a := range args {
 				env.vars[fmt.Sprintf("arg%d", j)] = a
+			}
+			// prevresult: what the call executed just before this one returned (same block or a
+			// single-predecessor chain of blocks: nothing else was called in between on any path)
+			if vc.prevRes != nil {
+				env.vars["prevresult"] = *vc.prevRes
+				for k, t := range vc.prevRes.Tup {
+					env.vars[fmt.Sprintf("prevresult%d", k)] = t
+				}
 			}
 			label := cp.C.Label
 			if label == "" {
@@ -819,7 +828,8 @@ func (vc *VC) frameCheck(st *State, pos token.Pos) {
 		byKey[r.key] = append(byKey[r.key], r)
 	}
 	for _, k := range sortedKeys(st.heap) {
-		if strings.HasPrefix(k, "#box") || strings.HasPrefix(k, "#iter") || k == tokKey || k == freshKey {
+		if strings.HasPrefix(k, "#box") || strings.HasPrefix(k, "#iter") || k == tokKey || k == freshKey || k == "#polled" {
+			// (#polled is the activation's own history of non-blocking polls: no caller can see it)
 			continue
 		}
 		elem := vc.heapElem[k]
